@@ -5,6 +5,5 @@ NEXT Next
 INVARIANT HeapIsHistory
 INVARIANT CallsOwnNothing
 INVARIANT OnCurrentIndex
-INVARIANT SameObjectSameResult
 INVARIANT SpellingIrrelevant
 INVARIANT LastIsLastPlace
